@@ -88,6 +88,14 @@ def check_case(ctx, case, enum=False):
             problems.append("key-without-coordinates")
             continue
         pts.append(P)
+        try:
+            raw = vk.to_string()
+            if raw != P[0].to_bytes(d.plen, "big") + P[1].to_bytes(d.plen, "big") \
+                    or VerifyingKey.from_string(vk.to_string("compressed") if d.plen > 1 else raw, curve=d.lib).to_string() != raw \
+                    or vk.curve is not d.lib:
+                problems.append("returned-key-serialises-wrongly")
+        except Exception as ex:
+            problems.append("returned-key-serialise-exception-" + type(ex).__name__)
         if not rdsa.verify(d.ref, P, e, r, s):
             problems.append("returned-key-does-not-verify(reference)")
         try:
